@@ -71,7 +71,8 @@ def load_metadata(username="master"):
             timestamp = os.path.getmtime(user_file(filename, username))
             theory_cache[username][filename] = {
                 'imports': data['imports'],
-                'description': data['description']
+                'description': data['description'],
+                'meta_timestamp': timestamp
             }
 
     # Immediately check for topological order.
@@ -110,6 +111,22 @@ def check_topological_sort(username="master"):
         if not theory_cache[username][name]['visited']:
             dfs(name, tuple())
 
+def update_metadata(filename, username="master"):
+    """Read the imports of the given theory again if its file is new or
+    has changed since they were read. Return whether the imports changed.
+
+    """
+    cache = theory_cache[username].setdefault(filename, dict())
+    timestamp = os.path.getmtime(user_file(filename, username))
+    if cache.get('meta_timestamp') == timestamp:
+        return False
+    data = load_json_data(filename, username)
+    changed = cache.get('imports') != data['imports']
+    cache['imports'] = data['imports']
+    cache['description'] = data['description']
+    cache['meta_timestamp'] = timestamp
+    return changed
+
 def get_import_order(filenames, username="master"):
     """Obtain the order of loading theories for fulfilling
     the imports in the theory given by the list of filenames.
@@ -117,6 +134,17 @@ def get_import_order(filenames, username="master"):
     """
     if username not in theory_cache:
         load_metadata(username)
+
+    # The import relation is read from the files as they are now.
+    changed, seen, todo = False, set(), list(filenames)
+    while todo:
+        name = todo.pop()
+        if name not in seen:
+            seen.add(name)
+            changed = update_metadata(name, username) or changed
+            todo.extend(theory_cache[username][name]['imports'])
+    if changed:
+        check_topological_sort(username)
 
     depend_list = []
     def dfs(name):
@@ -141,6 +169,8 @@ def load_theory_cache(filename, username="master"):
     if username not in theory_cache:
         load_metadata(username)
 
+    if update_metadata(filename, username):
+        check_topological_sort(username)
     cache = theory_cache[username][filename]
     timestamp = os.path.getmtime(user_file(filename, username))
 
